@@ -42,7 +42,13 @@ def run(ctx):
     except (TranslationError, Exception) as e:   # noqa
         ctx.bridge('translator: petl/comparison.py within accepted subset', False, repr(e))
     # 2. proofs
-    ctx.prove(['PetlProofs.Props.C04'], REQUIRED)
+    from translators import fingerprints as _fp
+    try:
+        _fpi = _fp.generate()
+        ctx.bridge('translator: fingerprints of the petl functions the hand-written models mirror (%d bodies)' % _fpi['names'], True)
+    except Exception as e:   # noqa
+        ctx.bridge('translator: source fingerprints extracted', False, repr(e))
+    ctx.prove(['PetlProofs.Props.C04', 'PetlProofs.Snapshot.C04'], REQUIRED + ['Petl.Snapshot.C04_sources_as_validated'])
 
     U = list(gen.UNIVERSE)
     extra_n = 2000 if ctx.thorough() else 150
